@@ -19,6 +19,44 @@ def c01():
     return minthist.check("C01")
 
 
+@reg("C02")
+def c02():
+    # fee-bearing keysets incl. the boundary values named by the property
+    return minthist.check("C02", fees=(0, 1, 100, 999, 1000, 2500), policy="min1")
+
+
+@reg("C03")
+def c03():
+    return minthist.check("C03", profile=["mintquote", "settle", "notify", "pollmint", "mint", "meltquote", "melt", "restart", "swap"],
+                          gen_overrides={"MaxMq": 5})
+
+
+@reg("C05")
+def c05():
+    return minthist.check("C05", profile=["mintquote", "settle", "mint", "swap", "meltquote", "melt", "pollmelt", "checkstate", "restart"],
+                          probe="passive")
+
+
+@reg("C06")
+def c06():
+    return minthist.check("C06")
+
+
+@reg("C09")
+def c09():
+    return minthist.check("C09", fees=(0, 100, 1000, 2500))
+
+
+@reg("C15")
+def c15():
+    return minthist.check("C15")
+
+
+@reg("C16")
+def c16():
+    return minthist.check("C16")
+
+
 def replay(prop, path):
     with open(path) as f:
         rp = json.load(f)
